@@ -7,39 +7,42 @@ ALL = ['C%02d' % i for i in range(1, 21)]
 
 # pid -> (technique, level text, level note, design ref)
 CHECKS = {
- 'C01': ('Coq proof (composition "exact recovery of the family member by the fit" o "the applied correction maps every '
-         'pixel to its reference", for gWCS in any state / through a reference plane and for the flat FITS model) + '
-         'correspondence in Coq of the fit reported by fit_wcs/align_wcs with the exact model + landing measured',
+ 'C01': ('Coq proof (composition "exact recovery of the family member by the fit" o "the applied correction maps '
+         'every pixel to its reference", for gWCS in any state / through a reference plane and for the flat FITS '
+         'model) + correspondence in Coq of the fit reported by fit_wcs/align_wcs with the exact model + landing '
+         'measured',
          'Machine-checked composition theorems over arbitrary histories (refutation witness for pre-F7). Each run '
          'builds exact affine errors in the tangent plane of FITS (CD/PC/SIP, RA wrap, high dec) and mock-gWCS '
-         'correctors with 0-2 earlier alignments, all fitgeom and weightings, fit_wcs and align_wcs (scripted shuffled '
-         'matcher); compares the reported matrix/shift in Coq with the exact model fit of the true pairs (agree06) and '
-         'measures that every catalog pixel lands on its reference (gWCS <= 1e-7 arcsec; FITS within 4 D rho^2 scale^2 '
-         'px, measured constant <= 1.0), reported rmse = residual through the corrected WCS on noisy data, '
-         'fit_RA/fit_DEC = corrected positions.',
+         'correctors with 0-2 earlier alignments, all fitgeom and weightings, fit_wcs and align_wcs (scripted '
+         'shuffled matcher); compares the reported matrix/shift in Coq with the exact model fit of the true pairs '
+         '(agree06) and measures that every catalog pixel lands on its reference (gWCS <= 1e-7 arcsec; FITS within '
+         '4 D rho^2 scale^2 px, measured constant <= 1.0), reported rmse = residual through the corrected WCS on '
+         'noisy data, fit_RA/fit_DEC = corrected positions.',
          'PARTIAL: the FITS second-order reprojection bound is measured, not proved; external transforms (wcslib, '
          'gwcs) enter as Section hypotheses. Rounding outside the theorems. Known finding K6 (clipping of '
          'rounding-level residuals down to two sources loses the handedness of a reflected true map).',
          'DESIGN.md section 6 (corrector algebra)'),
- 'C02': ('Coq proof (gWCS pipeline state machine: requested affine applied exactly in every reachable state, own and '
-         'reference plane; _tp2tp exact on affine maps; FITS exact at the reference pixel for every projection with '
-         'P_c(0)=c and everywhere in the flat instance; stencil exact to degree 4) + correspondence in Coq of tp_affine '
-         'read back from the pipeline after every step + measured identity on the implementation',
-         'Machine-checked theorems by induction over arbitrary correction histories (copy / re-wrap included), with a '
-         'refutation witness for the pre-F7 code. Each run compares the affine matrices/translations of the gWCS '
+ 'C02': ('Coq proof (gWCS pipeline state machine: requested affine applied exactly in every reachable state, own '
+         'and reference plane; _tp2tp exact on affine maps; FITS exact at the reference pixel for every projection '
+         'with P_c(0)=c and everywhere in the flat instance; stencil exact to degree 4) + correspondence in Coq of '
+         'tp_affine read back from the pipeline after every step + measured identity on the implementation',
+         'Machine-checked theorems by induction over arbitrary correction histories (copy / re-wrap included), with '
+         'a refutation witness for the pre-F7 code. Each run compares the affine matrices/translations of the gWCS '
          'pipeline with the exact model after every step of random dyadic histories, and evaluates the C02 identity '
-         'on gWCS (<= 1e-7 arcsec) and FITS correctors (bound 4(|s|+|M-I|rho) r^2 + quantum terms, measured constant '
-         '<= 1.6) over geometries incl. RA wrap, high declination, SIP, CD/PC, reference planes.',
+         'on gWCS (<= 1e-7 arcsec) and FITS correctors (bound 4(|s|+|M-I|rho) r^2 + quantum terms, measured '
+         'constant <= 1.6) over geometries incl. RA wrap, high declination, SIP, CD/PC, reference planes. '
+         'References that carry 2-3 own-plane corrections of their own are included.',
          'PARTIAL for FITS off the reference pixel and for reference planes with another tangent point: the '
          'second/first-order curvature bounds are measured, not proved. wcslib/gwcs/astropy.modeling are external '
          '(Section hypotheses: inverse pairs, P_c(0)=c).',
          'DESIGN.md section 6 (corrector algebra)'),
- 'C03': ('Coq proof (six conversions coherent - mutual inverses and commuting triangle - in every reachable gWCS state '
-         'and after every FITS flat history) + round trips / triangle on all input shapes measured on the implementation',
+ 'C03': ('Coq proof (six conversions coherent - mutual inverses and commuting triangle - in every reachable gWCS '
+         'state and after every FITS flat history) + round trips / triangle on all input shapes measured on the '
+         'implementation',
          'Machine-checked invariant over arbitrary histories of the corrector state machine (invertibility of the '
          'accumulated affine preserved); each run exercises round trips and the triangle on shapes (), (1,), (n,), '
-         '(n,m) for fresh, corrected, copied and re-wrapped FITS and gWCS correctors and compares pipeline observables '
-         'with the model in Coq.',
+         '(n,m) for fresh, corrected, copied and re-wrapped FITS and gWCS correctors and compares pipeline '
+         'observables with the model in Coq.',
          'Array shapes and the external transforms are measured. Known finding K4 (gwcs outside_footprint makes '
          'world_to_det NaN for some in-image positions).',
          'DESIGN.md section 6 (corrector algebra)'),
@@ -47,20 +50,23 @@ CHECKS = {
          'correction frame, original WCS untouched; FITS flat group laws) + correspondence in Coq of pipeline '
          'observables over histories 0..6 with copy()/re-wrap + group laws measured on a pixel grid',
          'Machine-checked theorems by induction over histories, refutation witness for the pre-F7 code. Each run '
-         'replays random dyadic histories on live / copied / re-wrapped correctors and compares tp_affine and the frame '
-         'list with the model in Coq (own-plane and copy/re-wrap variants exactly, reference-plane variants within '
-         '2^-40), and checks the group laws on the sky for FITS and gWCS.',
+         'replays random dyadic histories on live / copied / re-wrapped correctors and compares tp_affine and the '
+         'frame list with the model in Coq (own-plane and copy/re-wrap variants exactly, reference-plane variants '
+         'within 2^-40), and checks the group laws on the sky for FITS and gWCS.',
          'Independence of copies and "caller\'s FITS WCS object never modified" are measured (the model is purely '
          'functional). External transforms as Section hypotheses.',
          'DESIGN.md section 6 (corrector algebra)'),
- 'C05': ('Coq proof (the conjugation used by set_correction equals R o G o R^-1; _tp2tp exact on affine plane-to-plane '
-         'maps; affine maps agreeing on three non-collinear points are equal, hence plane independence; one sky-level '
-         'map for all members of a group) + group alignments through different reference planes measured',
+ 'C05': ('Coq proof (the conjugation used by set_correction equals R o G o R^-1; _tp2tp exact on affine '
+         'plane-to-plane maps; affine maps agreeing on three non-collinear points are equal, hence plane '
+         'independence; one sky-level map for all members of a group) + group alignments through different '
+         'reference planes measured',
          'Machine-checked theorems for affine plane-to-plane maps (refutation witness for pre-F7). Each run aligns '
          'groups of 1..4 FITS / gWCS images with distinct tangent points, orientations and scales through several '
          'reference planes (member, non-member, rotated/scaled/offset) and compares the resulting sky positions: '
-         'rounding level when planes coincide, otherwise within 10 corr sep L rad (measured <= 3.9); all members land '
-         'on the reference; correspondence of the conjugated affines in Coq.',
+         'rounding level when planes coincide, otherwise within 10 corr sep L rad (measured <= 3.9); all members '
+         'land on the reference; correspondence of the conjugated affines in Coq. A mosaic stream aligns two images '
+         'in one align_wcs(expand_refcat=True) call through three planes (the second image is matched to rows '
+         'appended from the first).',
          'PARTIAL: the first-order plane-to-plane bound is measured, not proved. Mixed FITS/gWCS groups not driven.',
          'DESIGN.md section 6 (corrector algebra)'),
  'C06': ('Coq proof (weighted least-squares optimality of fit_shifts / fit_rscale incl. reflections / fit_rshift / '
@@ -71,32 +77,33 @@ CHECKS = {
          'data, refutation witnesses for the pre-fix code (F1, F12). The model is tied to the current source by '
          'evaluating `agree06` in Coq on the outputs of the private fitters and of iter_linear_fit(nclip=0).',
          'x87 rounding is outside the theorems (parameters compared within 2^-28). Exactly degenerate inputs are '
-         'C17\'s domain. Trusted: Coq kernel + vm_compute, python harness (generators, marshalling).',
+         "C17's domain. Trusted: Coq kernel + vm_compute, python harness (generators, marshalling).",
          'DESIGN.md section 6 (C06)'),
  'C07': ('Coq proof (clipping loop over an abstract fit/statistic: retained-set characterisation, no untested '
-         're-entry, accumulation monotone, stop reasons, prefix consistency, result spec) + per-run trace validation '
-         'of iter_linear_fit histories (nclip = 0..K) evaluated inside Coq',
+         're-entry, accumulation monotone, stop reasons, prefix consistency, result spec) + per-run trace '
+         'validation of iter_linear_fit histories (nclip = 0..K) evaluated inside Coq',
          'Machine-checked theorems about the loop for EVERY fit function, statistic, sigma, nclip and mask; the '
          'concrete three-valued step used for validation is proved to coincide with the abstract step outside the '
-         'tolerance band; refutation witness for the pre-fix loop (F2). Each run validates the implementation\'s '
+         "tolerance band; refutation witness for the pre-fix loop (F2). Each run validates the implementation's "
          'histories step by step (retained set, stop condition, eff_nclip, fit = exact optimum of the retained '
          'points, statistics recomputed exactly) in Coq.',
-         'Cut-off decisions within a 2^-20 relative band are accepted either way (rounding); mae through a '
-         'rational sqrt enclosure. Trusted: Coq kernel + vm_compute, python harness.',
+         'Cut-off decisions within a 2^-20 relative band are accepted either way (rounding); mae through a rational '
+         'sqrt enclosure. Trusted: Coq kernel + vm_compute, python harness.',
          'DESIGN.md section 6 (C07)'),
- 'C08': ('Coq proof (objectives invariant under permutation / scaled by weight scaling / conjugated by translations, '
-         'centres, rotations x scale and reflections; clipping loop commutes with relabelling for every nclip) + '
-         'metamorphic pairs on the implementation + correspondence in Coq on the transformed inputs',
+ 'C08': ('Coq proof (objectives invariant under permutation / scaled by weight scaling / conjugated by '
+         'translations, centres, rotations x scale and reflections; clipping loop commutes with relabelling for '
+         'every nclip) + metamorphic pairs on the implementation + correspondence in Coq on the transformed inputs',
          'Machine-checked objective-level equivariance theorems for all lists, parameters and transforms, the '
          'closed-form shift fit at parameter level, and the theorem that the whole sigma-clipping loop commutes '
          'with any relabelling (fitmask permuted, fit and eff_nclip unchanged). Each run applies permutations, '
          'weight scalings, uniform weights, other centres, exact lattice similarities (both sets / xy alone) to '
-         'iter_linear_fit with clipping and checks the induced conjugation, and compares the transformed runs '
-         'with the exact model in Coq.',
+         'iter_linear_fit with clipping and checks the induced conjugation, and compares the transformed runs with '
+         'the exact model in Coq. Parameter-level theorems (through uniqueness of the minimiser) for permutation, '
+         'weight scaling (similarity family), translation / centre and similarity conjugation (general family).',
          'Parameter-level equalities are proved for permutations (shift, general, similarity families, via '
-         'uniqueness of the optimum); for weight scaling, centres and similarity transforms the PARTIAL part is that '
-         'only the objective-level statements are proved (parameter equality needs the same uniqueness argument for '
-         'those transforms); covered numerically. Rounding outside the theorems.',
+         'uniqueness of the optimum); for weight scaling, centres and similarity transforms the PARTIAL part is '
+         'that only the objective-level statements are proved (parameter equality needs the same uniqueness '
+         'argument for those transforms); covered numerically. Rounding outside the theorems.',
          'DESIGN.md section 6 (C08/C09)'),
  'C09': ('Coq proof (objectives ignore zero-weight pairs whatever their coordinates; masked sources cannot change '
          'iter_linear_fit (Leibniz equality); harmonic weight law; weights follow sources through concatenation) + '
@@ -104,71 +111,83 @@ CHECKS = {
          'true pairs with the true weights',
          'Machine-checked theorems for all lists/weights/coordinates; each run feeds corrupted zero-weight inputs '
          '(+-2^40) through the fitters and iter_linear_fit and compares with the exact model in Coq, checks '
-         'corrupt/drop invariance and the harmonic law on the implementation, and drives align_wcs (1..3 images '
-         'per group, weight columns in image/reference catalogs, shuffled scripted matcher) comparing the reported '
-         'fit in Coq with the exact fit of the true pairs carrying the true weights.',
+         'corrupt/drop invariance and the harmonic law on the implementation, and drives align_wcs (1..3 images per '
+         'group, weight columns in image/reference catalogs, shuffled scripted matcher) comparing the reported fit '
+         'in Coq with the exact fit of the true pairs carrying the true weights. A clipping stream runs the same '
+         'variants (plus zero-weight sources moved by a fraction of the unit) through iter_linear_fit with nclip=3 '
+         "in both clip_accum modes; an expand_refcat stream compares the second image's fit with the exact weighted "
+         "fit when appended reference rows carry the first image's weights.",
          'Rounding outside the theorems. The matcher is scripted (ground truth). Trusted: Coq kernel + vm_compute, '
          'python harness, astropy/wcslib transforms used to compute expected tangent-plane coordinates.',
          'DESIGN.md section 6 (C08/C09)'),
- 'C10': ('Coq proof over R (build_fit_matrix applied to the decomposition reproduces the matrix for every matrix with '
-         'non-zero columns; angle ranges; skew wrap; <scale>^2 = |det|; similarity scales) + correspondence in Coq '
-         'of every reported quantity, the residual identity and the statistics recomputed from reported residuals',
+ 'C10': ('Coq proof over R (build_fit_matrix applied to the decomposition reproduces the matrix for every matrix '
+         'with non-zero columns; angle ranges; skew wrap; <scale>^2 = |det|; similarity scales) + correspondence in '
+         'Coq of every reported quantity, the residual identity and the statistics recomputed from reported '
+         'residuals',
          'Machine-checked theorems about the literal decomposition of _build_fit (atan2 defined from atan; hyp; '
          'numpy floor-mod) for all matrices; each run evaluates, in exact rational arithmetic inside Coq, the '
          'identities matrix = [[sx cos rx, sy sin ry], [-sx sin rx, sy cos ry]], skew/<rot>/<scale>/proper/ranges '
          'on the values REPORTED by _build_fit (all quadrants, reflections, special angles) and by iter_linear_fit, '
          'the residual identity xy - (F (uv - c) + s + c), and rmse/mae/std recomputed from the reported residuals '
-         'and weights.',
+         'and weights. Statistics theorems over Q: rmse^2 value, std^2 decomposition with a proved-positive '
+         'denominator, mae enclosure ordered and <= rmse; similarity fits: proper-rotation shortcut = general '
+         'decomposition, reflected similarity reports skew -180.',
          'Theorems depend on the standard library real-number axioms (sig_forall_dec, sig_not_dec, '
          'functional_extensionality_dep, classic). arctan2/cos/sin are libm (cos/sin of reported angles taken from '
          'python math). The left-inverse direction (decomposition of a built matrix) is proved too.',
          'DESIGN.md section 6 (C10)'),
- 'C11': ('Coq proof about the SPECIFICATION matcher (equals ground truth under unambiguity, partial bijection, indices '
-         'in range, no repeats, row-order independent; combined with the half-bin theorem of C12) + correspondence '
-         'of XYXYMatch / match2ref pair sets with it, evaluated in Coq',
+ 'C11': ('Coq proof about the SPECIFICATION matcher (equals ground truth under unambiguity, partial bijection, '
+         'indices in range, no repeats, row-order independent; combined with the half-bin theorem of C12) + '
+         'correspondence of XYXYMatch / match2ref pair sets with it, evaluated in Coq',
          'Machine-checked theorems about the specification matcher `true_pairs`; each run feeds well-separated '
          'fields (extras 0-60 %, row permutations, use2dhist on/off, xoffset/yoffset, pixel scales 0.01..10) '
          'through XYXYMatch.__call__ and WCSGroupCatalog.match2ref and compares the SET of returned pairs with the '
-         'specification inside Coq; index ranges, order of the two arrays, repeats are checked on the implementation.',
+         'specification inside Coq; index ranges, order of the two arrays, repeats are checked on the '
+         'implementation. Also through the deprecated tp_wcs= calling form, and with one matcher object reused in '
+         'user-offset mode over catalogs on both sides of the estimate.',
          'PARTIAL: the matcher itself (stsci.stimage.xyxymatch, C code) is external - the theorem is about the '
          'specification matcher, the glue is tied by correspondence. Rounding outside the theorems.',
          'DESIGN.md section 6 (C12/C11)'),
  'C12': ('Coq proof (half-bin theorem for every pscale/searchrad; no pair in the search box => (0,0); peak locator '
-         'inside histogram and fit box with status in the vocabulary for EVERY coefficient vector / histogram / mask '
-         '/ box size; exact vertex) + correspondence of _xy_2dhist, _estimate_2dhist_shift and _find_peak in Coq',
+         'inside histogram and fit box with status in the vocabulary for EVERY coefficient vector / histogram / '
+         'mask / box size; exact vertex) + correspondence of _xy_2dhist, _estimate_2dhist_shift and _find_peak in '
+         'Coq',
          'Machine-checked theorems about executable models of the histogram binning, the bin->offset conversion '
-         '(after fix F3, with a refutation witness for the old one) and the whole control flow of _find_peak with the '
-         'least-squares coefficients as an arbitrary oracle; the LSQ solution used for execution is computed in Coq '
-         'by the proved Gauss-Jordan inverse. Each run compares the integer histogram, the estimate and _find_peak '
-         'triples (exhaustive over small histograms in the thorough tier) with the model inside Coq.',
+         '(after fix F3, with a refutation witness for the old one) and the whole control flow of _find_peak with '
+         'the least-squares coefficients as an arbitrary oracle; the LSQ solution used for execution is computed in '
+         'Coq by the proved Gauss-Jordan inverse. Each run compares the integer histogram, the estimate and '
+         '_find_peak triples (exhaustive over small histograms in the thorough tier) with the model inside Coq.',
          'The search region of the code is the Chebyshev box of half-width searchrad + pscale/2 (outermost bins), '
          'so "no pair within the search radius" is read as "no pair in the search box". numpy.linalg.lstsq, KDTree '
          'are external. Cases within 1e-8 bins of a bin edge are discarded (counted).',
          'DESIGN.md section 6 (C12/C11)'),
- 'C13': ('Coq proof (align_wcs as a state machine over arbitrary matcher/fit/ordering oracles: status trichotomy, one '
-         'REFERENCE iff no refcat, group members equal, corrected exactly once iff SUCCESS, raise => nothing '
+ 'C13': ('Coq proof (align_wcs as a state machine over arbitrary matcher/fit/ordering oracles: status trichotomy, '
+         'one REFERENCE iff no refcat, group members equal, corrected exactly once iff SUCCESS, raise => nothing '
          'changed, NotEnoughCatalogs iff too few non-empty groups) + correspondence of scripted scenarios in Coq',
          'Machine-checked theorems for every input list, option vector and oracle (incl. fit-raises outcomes after '
          'fix F17 and the unconditional fitgeom check after F16), refutation witnesses for F8, F16, F17. Each run '
-         'drives the real align_wcs through scenarios (1..5 correctors, group-id assignments, good/junk/empty/'
-         'coincident catalogs, refcat none/table/corrector, expand x enforce x minobj x fitgeom, scripted matcher, '
-         'counting correctors) and compares statuses, correction counts, exception class with the model in Coq; '
-         'sky grids of REFERENCE/FAILED inputs must be bit-identical.',
+         'drives the real align_wcs through scenarios (1..5 correctors, group-id assignments, '
+         'good/junk/empty/coincident catalogs, refcat none/table/corrector, expand x enforce x minobj x fitgeom, '
+         'scripted matcher, counting correctors) and compares statuses, correction counts, exception class with the '
+         'model in Coq; sky grids of REFERENCE/FAILED inputs must be bit-identical. Scenarios include a world-scale '
+         'dimension (fields of ~15 arcsec whose overlaps are < 1e-8 sr).',
          'Known findings K13a (match=None length mismatch raises mid-run) and K13c (singular fitted matrix makes '
          'set_correction raise mid-run). Only FITS-WCS correctors are driven. Trusted: Coq kernel, python harness.',
          'DESIGN.md section 6 (C13/C14)'),
- 'C14': ('Coq proof (reference-catalog growth: original rows an unchanged prefix at every step, fresh consecutive ids, '
-         'only unmatched rows of SUCCESS or zero-overlap groups, each once, never without expand_refcat) + '
+ 'C14': ('Coq proof (reference-catalog growth: original rows an unchanged prefix at every step, fresh consecutive '
+         'ids, only unmatched rows of SUCCESS or zero-overlap groups, each once, never without expand_refcat) + '
          'correspondence in Coq + measured sky agreement of real-matcher mosaics',
          'Machine-checked loop-invariant theorems for every input and oracle, refutation witness for F5. Each run '
          'compares number / ids / order / provenance of returned catalog rows of scripted scenarios with the model '
          'in Coq, checks original rows bit-identical, and aligns synthetic overlapping mosaics with the real '
-         'XYXYMatch measuring that common sources agree on the sky (<= 1e-6 arcsec, measured max 5.7e-8).',
+         'XYXYMatch measuring that common sources agree on the sky (<= 1e-6 arcsec, measured max 5.7e-8). Scenarios '
+         'include a world-scale dimension (fields of ~15 arcsec whose overlaps are < 1e-8 sr).',
          'PARTIAL: the numerical sky agreement is measured, not proved (only the triangle-inequality lemma). '
          'Trusted: Coq kernel, python harness, astropy/wcslib.',
          'DESIGN.md section 6 (C13/C14)'),
- 'C15': ('Coq proof (arg-max pair, reference choice, true area, exact removal, sorted remainder, next image, grouping '
-         'order; all list lengths) + correspondence in Coq on every permutation of generated footprint sets',
+ 'C15': ('Coq proof (arg-max pair, reference choice, true area, exact removal, sorted remainder, next image, '
+         'grouping order; all list lengths) + correspondence in Coq on every permutation of generated footprint '
+         'sets',
          'Machine-checked theorems about executable models of _max_overlap_pair, _max_overlap_image and the '
          'align_wcs grouping block for every matrix / list length, with refutation witnesses for the pre-fix code '
          '(F4, F5, F9); each run calls the private helpers with duck-typed rectangles in EVERY permutation of each '
@@ -177,20 +196,48 @@ CHECKS = {
          'Spherical overlap areas are external (rectangles with exact areas are used at helper level). Ties are '
          'checked against the property predicate only. Trusted: Coq kernel + vm_compute, python harness.',
          'DESIGN.md section 6 (C15)'),
- 'C18': ('Coq proof (set_correction is a record update: only crval and the linear matrix change; diag(cdelt).(pc.U) = '
-         '(diag(cdelt).pc).U; CD/PC twins agree for every projection family) + attribute diff, header round trip, '
+ 'C16': ('Coq proof (whole convex_hull: vertices are input points, start/closure at the lexicographic minimum, '
+         'containment w.r.t. every edge, strict left turns incl. chain junctions, merging post-condition, totality; '
+         'RefCatalog 1-/2-source boxes) + exact correspondence of convex_hull outputs in Coq + catalog-level '
+         'predicates on spherical polygons',
+         'Machine-checked theorems about an executable model of the WHOLE convex_hull (dedup + lexicographic sort, '
+         'both monotone chains, concatenation, small-input exits, merging after fixes F10/F14, closing vertex), '
+         'including a literal index-list transcription proved equal to the structural model, with refutation '
+         'witnesses for the pre-fix code (F6 direction, F10, F14). Each run compares convex_hull outputs on '
+         'integer/dyadic point sets EXACTLY with the model in Coq and evaluates containment / box extent / overlap '
+         'symmetry and bounds on image, group and reference catalogs across the sky. RefCatalog growth histories '
+         '(constructor on 1..5 sources, then expand_catalog steps) are checked after every step.',
+         'Spherical geometry (polygons, union, intersection, areas; the arcsec->radian half of F6) is external: '
+         'measured only (the F11 rotation order is modelled and proved in SkyRot.v). Known findings K2 and K3 '
+         '(spherical_geometry multi_union; summed member-wise overlaps). Trusted: Coq kernel + vm_compute, python '
+         'harness.',
+         'DESIGN.md section 6 (C16)'),
+ 'C17': ('Coq proof (Gauss-Jordan inverse correct for every order n; null vector => Singular) + per-run '
+         'correspondence of the exact model with linalg.inv evaluated inside Coq',
+         'Machine-checked theorems about an exact-rational model of the Gauss-Jordan algorithm (left and right '
+         'inverse for every order; Singular IF AND ONLY IF the input has a non-trivial null vector, hence total on '
+         'regular input; collinear points => singular fit), closed under the global context; the model is tied to '
+         'the current source by evaluating `agree` (entrywise and residual bound 64 n cond eps against the exact '
+         'inverse; raised <-> Singular) in Coq on inputs run through the implementation on every run. Both '
+         'implementations selected by long-double capability are run (the numpy branch is switched on through the '
+         "module attribute, as the repository's tests do); known finding K1n for that branch.",
+         'Floating-point rounding is outside the theorems (bound measured, not proved). Trusted: Coq kernel + '
+         'vm_compute, the python harness, the K1 classifier. Known finding K1 (rounding hides zero pivots).',
+         'DESIGN.md section 6 (C17)'),
+ 'C18': ('Coq proof (set_correction is a record update: only crval and the linear matrix change; diag(cdelt).(pc.U) '
+         '= (diag(cdelt).pc).U; CD/PC twins agree for every projection family) + attribute diff, header round trip, '
          'CD/PC twins and ValueError exits on the implementation, FITS state compared with the model in Coq',
-         'Machine-checked theorems about the FITS correction model; each run corrects celestial TAN WCSs (CD and PC, '
-         'SIP on/off, pointings/orientations/scales), compares CRVAL and the linear matrix with the flat model where '
-         'applicable, checks every other attribute unchanged, header round trip, and that CD and PC+CDELT twins give '
-         'identical corrected sky mappings; non-celestial / missing WCS rejected with ValueError.',
-         'Header I/O and wcslib are external (measured). LATPOLE tracks CRVAL by wcslib default and is excluded from '
-         'the attribute diff.',
+         'Machine-checked theorems about the FITS correction model; each run corrects celestial TAN WCSs (CD and '
+         'PC, SIP on/off, pointings/orientations/scales), compares CRVAL and the linear matrix with the flat model '
+         'where applicable, checks every other attribute unchanged, header round trip, and that CD and PC+CDELT '
+         'twins give identical corrected sky mappings; non-celestial / missing WCS rejected with ValueError.',
+         'Header I/O and wcslib are external (measured). LATPOLE tracks CRVAL by wcslib default and is excluded '
+         'from the attribute diff.',
          'DESIGN.md section 6 (corrector algebra)'),
  'C19': ('Coq proof (soundness of an ownership/alias checker incl. helper-call summaries) + translator regenerating '
          'the ownership IR of the array-level entry points from the current source on every run (checked by '
          'vm_compute) + byte-level runtime monitor of all entry points',
-         'Machine-checked soundness: `check params prog = true` implies no run of prog\'s statements (any order, any '
+         "Machine-checked soundness: `check params prog = true` implies no run of prog's statements (any order, any "
          'multiplicity, any resolution of may-alias, helper calls abstracted by proved summaries) writes a '
          'caller-owned location. On every run a fail-closed python-ast translator re-derives the IR of 13 '
          'array-level functions (+ nested helpers) of linearfit/linalg/matchutils/wcsimage from /repo and Coq '
@@ -201,40 +248,16 @@ CHECKS = {
          'proved. Trusted: the translator and its numpy/builtin classification table, the container encoding; a '
          'caller-supplied callable is assumed not to return retained state.',
          'DESIGN.md section 6 (C19)'),
- 'C16': ('Coq proof (whole convex_hull: vertices are input points, start/closure at the lexicographic minimum, '
-         'containment w.r.t. every edge, strict left turns incl. chain junctions, merging post-condition, totality; '
-         'RefCatalog 1-/2-source boxes) + exact correspondence of convex_hull outputs in Coq + catalog-level '
-         'predicates on spherical polygons',
-         'Machine-checked theorems about an executable model of the WHOLE convex_hull (dedup + lexicographic sort, '
-         'both monotone chains, concatenation, small-input exits, merging after fixes F10/F14, closing vertex), '
-         'including a literal index-list transcription proved equal to the structural model, with refutation '
-         'witnesses for the pre-fix code (F6 direction, F10, F14). Each run compares convex_hull outputs on '
-         'integer/dyadic point sets EXACTLY with the model in Coq and evaluates containment / box extent / overlap '
-         'symmetry and bounds on image, group and reference catalogs across the sky.',
-         'Spherical geometry (polygons, union, intersection, areas; the arcsec->radian half of F6) is external: '
-         'measured only (the F11 rotation order is modelled and proved in SkyRot.v). Known findings K2 and K3 (spherical_geometry multi_union; summed '
-         'member-wise overlaps). Trusted: Coq kernel + vm_compute, python harness.',
-         'DESIGN.md section 6 (C16)'),
  'C20': ('Coq proof (shoelace area of the image of the unit square under an affine map = |det J|; scales by |det M| '
-         'under a correction in every gWCS state) + comparison with a finite-difference Jacobian on the implementation',
+         'under a correction in every gWCS state) + comparison with a finite-difference Jacobian on the '
+         'implementation',
          'Machine-checked theorems about tanp_pixel_scale on the corrector model; each run compares '
          'tanp_pixel_scale(x, y)^2 with |det J| of a finite-difference Jacobian of det_to_tanp for FITS (CD/PC/SIP) '
-         'and gWCS correctors over positions and correction histories, tanp_center_pixel_scale with the value at the '
-         'detector position of the tangent point, and the units.',
-         'Square root, units and non-affine (distorted) maps are measured; the theorem covers affine det->tanp maps.',
+         'and gWCS correctors over positions and correction histories, tanp_center_pixel_scale with the value at '
+         'the detector position of the tangent point, and the units.',
+         'Square root, units and non-affine (distorted) maps are measured; the theorem covers affine det->tanp '
+         'maps.',
          'DESIGN.md section 6 (corrector algebra)'),
- 'C17': ('Coq proof (Gauss-Jordan inverse correct for every order n; null vector => Singular) + per-run '
-         'correspondence of the exact model with linalg.inv evaluated inside Coq',
-         'Machine-checked theorems about an exact-rational model of the Gauss-Jordan algorithm (left and right '
-         'inverse for every order; Singular IF AND ONLY IF the input has a non-trivial null vector, hence total on '
-         'regular input; collinear points => singular fit), closed '
-         'under the global context; the model is tied to the current source by evaluating `agree` (entrywise and '
-         'residual bound 64 n cond eps against the exact inverse; raised <-> Singular) in Coq on inputs run through '
-         'the implementation on every run.',
-         'Floating-point rounding is outside the theorems (bound measured, not proved). Trusted: Coq kernel + '
-         'vm_compute, the python harness, the K1 '
-         'classifier. Known finding K1 (rounding hides zero pivots).',
-         'DESIGN.md section 6 (C17)'),
 }
 
 
